@@ -101,6 +101,8 @@ def gen_ops(rng, case, n, weights):
         elif name == 'newclass':
             ops.append(['newclass', rng.randrange(ncls)])
             ncls += 1
+        elif name == 'bounce':
+            ops.append(['bounce', gen_ref(rng, case), rng.randrange(8)])
         else:
             raise ValueError(name)
     return ops
@@ -338,6 +340,21 @@ class Driver:
             rec['note']['replaces'] = type(c) in m.rows.get(e, {})
             rec['ret'], rec['exc'] = self.call(w.add_component, e, c)
             m.attach(e, c)
+        elif name == 'bounce':
+            # detach one component of the entity and attach the very same
+            # instance to the very same entity again
+            e, ok = self.resolve(op[1])
+            row = m.rows.get(e, {}) if ok else {}
+            if not row:
+                return None
+            t = list(row)[op[2] % len(row)]
+            c = row[t]
+            rec['entity'], rec['uids'] = e, [c.uid]
+            rec['ret'], rec['exc'] = self.call(w.remove_component, e, t)
+            if rec['exc'] is None:
+                m.detach(e, t)
+                rec['ret'], rec['exc'] = self.call(w.add_component, e, c)
+                m.attach(e, c)
         elif name == 'remove':
             e, ok = self.resolve(op[1])
             if not ok:
